@@ -14,7 +14,7 @@ func init() { register("C15", propC15) }
 func propC15() *Property {
 	return &Property{
 		ID:         "C15",
-		Decides:    "R15.1 the stored session deadlines are written only by the three deadline setters (so a deadline bounds every later Read/Write until changed); R15.2 every close() of a lifecycle channel is guarded by a winning CAS / done-check under the owner's mutex / sync.Once (repeatable Close, no double-close panic); R15.3 every blocking channel operation in the session/underlay/mux code selects on a shutdown channel of its owner; R15.4 underlay Close pokes blocked network I/O (past deadline) before closing sessions, under closeMutex after the done check; on a stream connection (net.Conn) the poke must release blocked writes as well, because the output loop can be parked in conn.Write while holding the lock Session.Close needs; R15.5 after RunEventLoop returns - with nil, EOF, closed or any error - the goroutine that ran it calls underlay.Close() on every path.",
+		Decides:    "R15.1 the stored session deadlines are written only by the three deadline setters (so a deadline bounds every later Read/Write until changed); R15.2 every close() of a lifecycle channel is guarded by a winning CAS / done-check under the owner's mutex / sync.Once (repeatable Close, no double-close panic); R15.3 every blocking channel operation in the session/underlay/mux code selects on a shutdown channel of its owner; R15.4 underlay Close pokes blocked network I/O (past deadline) before closing sessions, under closeMutex after the done check; on a stream connection (net.Conn) the poke must release blocked writes as well, because the output loop can be parked in conn.Write while holding the lock Session.Close needs; R15.5 after RunEventLoop returns - with nil, EOF, closed or any error - the goroutine that ran it calls underlay.Close() on every path.; R15.6 a stored deadline always arms a timer in Read and writeChunk (also when it has already passed); R15.7 Session.Close takes no lock that Read/Write hold across a blocking wait",
 		NotDecided: "promptness in seconds, goroutine counts at run time, data-race freedom in general, schedules.",
 		Rules: []Rule{
 			{ID: "R15.1", Floor: 3, Text: "every store to Session.readDeadline / Session.writeDeadline is in SetDeadline, SetReadDeadline or SetWriteDeadline", Run: r15_1},
